@@ -168,6 +168,10 @@ import tapescript.tools as T                         # noqa: E402
 import tapescript.parsing as P                       # noqa: E402
 import tapescript.AMHL as AMHLmod                    # noqa: E402
 from tapescript.errors import ScriptExecutionError   # noqa: E402,F401
+from tapescript.errors import SyntaxError as TapeSyntaxError   # noqa: E402
+
+# tapescript's own errors derive from BaseException, not Exception
+LIB_ERRORS = (Exception, ScriptExecutionError, TapeSyntaxError)
 
 if not os.path.realpath(tapescript.__file__).startswith(os.path.realpath(REPO) + os.sep):
     raise HarnessError(f'tapescript imported from {tapescript.__file__}, not {REPO}')
@@ -200,7 +204,9 @@ def check_seams():
         s = T.make_ptlc_lock(b'\x01' * 32, b'\x02' * 32, timeout=10)
     finally:
         reads = CLOCK.end_call()
-    if not reads or ('d%d' % (123_456_789 + 10)) not in s.src:
+    if not reads:
+        # (behavioural only: how the builder spells the deadline is not the
+        # seam check's business)
         raise HarnessError('clock seam unbound in tools')
     ENTROPY.reset(7)
     before = ENTROPY.calls
